@@ -2,6 +2,7 @@
 //! on generated cases and writes `op input result` lines for the extracted Coq model to check.
 //! usage: dbg-harness <property> <seed> <quick|thorough> <shard> <nshards> <outfile>
 mod c01;
+mod c04;
 mod c07;
 mod c08;
 mod c05;
@@ -59,7 +60,11 @@ fn main() {
         "C07" => c07::c07(&mut out, &mut rng, &tier),
         "C08" => c08::c08(&mut out, &mut rng, &tier),
         "C05" => c05::c05(&mut out, &mut rng, &tier),
-        "C06" => c05::c06_filter(&mut out, &mut rng, &tier),
+        "C06" => {
+            c05::c06_filter(&mut out, &mut rng, &tier);
+            c04::c06_graph(&mut out, &mut rng, &tier)
+        }
+        "C04" => c04::c04(&mut out, &mut rng, &tier),
         _ => {
             eprintln!("unknown property {}", prop);
             std::process::exit(2);
